@@ -226,12 +226,20 @@ type BulkAPIResult struct {
 // runBulkHTTP performs what v2.bulkHandler does: JsonBulkHandler.GetChannels (decodes the body), Bulker.Run, Terminate
 // (renders the response), and returns the decoded response entries + HTTP status + Run's error.
 func runBulkHTTP(ctx context.Context, bulker *bulking.Bulker, body string, opts bulking.BulkingOptions) (entries []BulkAPIResult, status int, runErr error, raw string) {
+	return runBulkHTTPWith(ctx, bulker, body, opts, nil)
+}
+
+// onChannels (optional) receives the result channel the handler created, before Run starts
+func runBulkHTTPWith(ctx context.Context, bulker *bulking.Bulker, body string, opts bulking.BulkingOptions, onChannels func(chan bulking.BulkElementResult)) (entries []BulkAPIResult, status int, runErr error, raw string) {
 	h := bulking.NewJSONBulkHandler(0)
 	w := httptest.NewRecorder()
 	r := httptest.NewRequest(http.MethodPost, "/v2/l1/_bulk", bytes.NewBufferString(body)).WithContext(ctx)
 	send, receive, ok := h.GetChannels(w, r)
 	if !ok {
 		return nil, w.Code, errors.New("bad request: " + w.Body.String()), w.Body.String()
+	}
+	if onChannels != nil {
+		onChannels(receive)
 	}
 	if err := bulker.Run(ctx, send, receive, opts); err != nil {
 		return nil, 500, err, ""
